@@ -8,19 +8,23 @@ import (
 func Units(prop string, t Tier, seed uint64, mode string) ([]engine.Unit, error) {
 	switch prop {
 	case "C07":
-		return c07Units(t, seed), nil
+		return append(probeUnits(prop), c07Units(t, seed)...), nil
 	case "C10":
-		return c10Units(t, seed), nil
+		return append(probeUnits(prop), c10Units(t, seed)...), nil
 	case "C12":
-		return c12Units(t, seed), nil
+		return append(probeUnits(prop), c12Units(t, seed)...), nil
 	case "C17":
-		return c17Units(t, seed), nil
+		return append(probeUnits(prop), c17Units(t, seed)...), nil
 	case "C18":
-		return c18Units(t, seed, mode), nil
+		return append(probeUnits(prop), c18Units(t, seed, mode)...), nil
 	case "C16":
-		return c16Units(t, seed), nil
+		return append(probeUnits(prop), c16Units(t, seed)...), nil
 	case "C13":
-		return c13Units(t, seed, mode), nil
+		return append(probeUnits(prop), c13Units(t, seed, mode)...), nil
 	}
-	return EngineUnits(prop, t, seed)
+	us, err := EngineUnits(prop, t, seed)
+	if err != nil {
+		return nil, err
+	}
+	return append(probeUnits(prop), us...), nil
 }
